@@ -37,7 +37,8 @@ ASSUMPTIONS = [
     'does not list it)',
 ]
 ANCHORS = ['Table.to_json', 'Table.from_json', 'NpEncoder.default', 'parse_biom_table', 'load_table']
-REQUIRED = ['writer_string_form', 'writer_direct_io_form',
+REQUIRED = ['reader_parse_table_string', 'reader_load_table_handle',
+            'reader_cli_convert_to_json', 'writer_string_form', 'writer_direct_io_form',
             'reader_load_table', 'reader_load_table_gz',
             'reader_parse_table_handle', 'reader_parse_table_chunks',
             'reader_from_json', 'escaping_needed', 'precision_needed',
@@ -242,7 +243,37 @@ def run_case(ctx, index):
                    ('parse_table_chunks',
                     lambda: biom.parse_table(chunks(text))),
                    ('from_json',
-                    lambda: biom.Table.from_json(json.loads(text2)))]
+                    lambda: biom.Table.from_json(json.loads(text2))),
+                   ('parse_table_string', lambda: biom.parse_table(text)),
+                   ('load_table_handle', lambda: _load_handle(biom, path)),
+                   ('parse_table_lines', lambda: biom.parse_table(
+                       text2.splitlines(True) if '\n' not in ''.join(
+                           obs + samp) else chunks(text2)))]
+        if index % 6 == 0 and ttype in (None, 'OTU table'):
+            # through the command: JSON in, JSON out (the command's writer)
+            outj = ctx.path('j%d.out.json' % index)
+
+            def via_cli():
+                from click.testing import CliRunner
+                from biom.cli import cli
+                args = ['convert', '-i', path, '-o', outj, '--to-json']
+                if ttype:
+                    args += ['--table-type', ttype]
+                rr = CliRunner().invoke(cli, args)
+                if rr.exit_code != 0:
+                    raise RuntimeError('biom convert exit %s: %r %r' % (
+                        rr.exit_code, rr.output[-200:], rr.exception))
+                with open(outj, encoding='utf-8') as f:
+                    tx = f.read()
+                os.remove(outj)
+                jsonspec.loads_strict(tx)
+                t_ = biom.Table.from_json(json.loads(tx))
+                if ttype is None:
+                    t_.type = None     # the command stamps the type "Table"
+                t_.generated_by = gby  # and its own generated-by / date
+                t_.create_date = date
+                return t_
+            readers.append(('cli_convert_to_json', via_cli))
         for nm, f in readers:
             try:
                 t2 = f()
@@ -276,6 +307,11 @@ def run_case(ctx, index):
     if not D.any():
         ctx.count('all_zero_tables')
     ctx.case(desc, bool(esc or prec or npmd or spec.obs_md or spec.samp_md))
+
+
+def _load_handle(biom, path):
+    with open(path, encoding='utf-8') as fh:
+        return biom.load_table(fh)
 
 
 def _with_handle(biom, path):
